@@ -244,20 +244,37 @@ Definition replay_wbl (acc : Z * list series * list (Z * Z)) (x : rec) :=
   | _ => acc
   end.
 
-Definition do_restart (m : st) (fastNew : bool) (sf : option (Z * Z * bool)) (minValid : Z)
+(* loadMmappedChunks (fix 422818037d): every series ref seen in a head-chunk file raises
+   lastSeriesID — before the minValidTime filter, so filtered chunks count too *)
+Definition chunks_max_ref (cs : list chunk) : Z := fold_left (fun a c => Z.max a (ck_ref c)) cs 0.
+
+(* the fast-startup block of Head.Init; `cur` is lastSeriesID when it runs.
+   fix 38fca1216f: the state file's id / the WAL-scan id is stored only when larger *)
+Definition fast_start (fixed : bool) (cur : Z) (m_first : Z) (segs1 : list (list rec)) (fastNew : bool)
+           (sf : option (Z * Z * bool)) : Z :=
+  if fastNew then
+    match sf with
+    | Some (id, seg, cl) =>
+        let v := if cl then id else find_last m_first segs1 id seg in
+        if fixed then Z.max cur v else v
+    | None => cur
+    end
+  else cur.
+
+Definition do_restart_gen (fixed : bool) (m : st) (fastNew : bool) (sf : option (Z * Z * bool)) (minValid : Z)
            (cs : list chunk) (wbl : list rec) (expAfter : list (Z * Z)) (alive : list Z) : st :=
   let segs1 := segs m ++ [[]] in                      (* wlog.NewSize creates a new segment *)
-  let last0 :=
-    if fastNew then
-      match sf with
-      | Some (id, seg, cl) => if cl then id else find_last (first m) segs1 id seg
-      | None => 0
-      end
-    else 0 in
+  let cur := if fixed then chunks_max_ref cs else 0 in
+  let last0 := fast_start fixed cur (first m) segs1 fastNew sf in
   let '(lst, h, multi) := fold_left (replay_rec minValid cs) (ckpt m ++ concat segs1) (last0, [], []) in
   let '(lst2, h2, _) := fold_left replay_wbl wbl (lst, h, multi) in
   (* `defer h.gc()` of Init: series left without data are removed (observed: alive) *)
   mkSt lst2 (filter (fun s => memZ (s_ref s) alive) h2) expAfter [] min_int64 (ckpt m) segs1 (first m) [].
+
+(* the code as it is (both fixes) *)
+Definition do_restart := do_restart_gen true.
+(* the code before the two fixes: refs in chunk files ignored, state-file id stored unconditionally *)
+Definition do_restart_old := do_restart_gen false.
 
 (* ---------------------------------------------------------------- operations *)
 
@@ -279,6 +296,14 @@ Definition step (m : st) (o : op) : st :=
   end.
 
 Definition run (ops : list op) : st := fold_left step ops init.
+
+Definition step_old (m : st) (o : op) : st :=
+  match o with
+  | ORestart _ _ fastNew sf minValid cs wbl expAfter alive => do_restart_old m fastNew sf minValid cs wbl expAfter alive
+  | _ => step m o
+  end.
+
+Definition run_old (ops : list op) : st := fold_left step_old ops init.
 
 (* the state file a clean Close writes when fast startup is enabled *)
 Definition clean_state_file (m : st) : Z * Z * bool :=
